@@ -24,25 +24,26 @@ type deferred struct {
 }
 
 type Frame struct {
-	id       int
-	fn       *ssa.Function
-	env      map[ssa.Value]Value
-	block    *ssa.BasicBlock
-	pred     *ssa.BasicBlock
-	pc       int
-	defers   []deferred
-	mode     int // 0 normal, 1 running defers for rundefers instr, 2 unwinding panic
-	panicked bool
-	recov    bool
-	retDst   ssa.Value // value in the caller receiving the result
-	isDefer  bool      // this frame runs a deferred call of the frame below
-	top      bool
-	bind     []Value
-	visits   map[int]int // loop header block index -> visits
-	ct       *Contract   // contract providing loop specs for this frame (nil: none)
-	lets     map[string]TV
-	loopPre  map[int]*State // loop ordinal -> state at loop entry (before havoc)
-	variant  map[int]*Term
+	id        int
+	fn        *ssa.Function
+	env       map[ssa.Value]Value
+	block     *ssa.BasicBlock
+	pred      *ssa.BasicBlock
+	pc        int
+	defers    []deferred
+	mode      int // 0 normal, 1 running defers for rundefers instr, 2 unwinding panic
+	panicked  bool
+	recov     bool
+	retDst    ssa.Value // value in the caller receiving the result
+	isDefer   bool      // this frame runs a deferred call of the frame below
+	top       bool
+	bind      []Value
+	visits    map[int]int // loop header block index -> visits
+	ct        *Contract   // contract providing loop specs for this frame (nil: none)
+	lets      map[string]TV
+	loopPre   map[int]*State // loop ordinal -> state at loop entry (before havoc)
+	variant   map[int]*Term
+	iterStart map[int]*State // loop ordinal -> state at the start of the current iteration (after havoc + invariants)
 }
 
 func (f *Frame) clone() *Frame {
@@ -64,6 +65,10 @@ func (f *Frame) clone() *Frame {
 	for k, v := range f.variant {
 		n.variant[k] = v
 	}
+	n.iterStart = make(map[int]*State, len(f.iterStart))
+	for k, v := range f.iterStart {
+		n.iterStart[k] = v
+	}
 	return &n
 }
 
@@ -71,12 +76,21 @@ type Path struct {
 	st    *State
 	stack []*Frame
 	done  bool
+	// iteration-start snapshots of the loops of the function under verification that the path is
+	// currently inside (used by xstep clauses when the function exits by panicking)
+	topIter map[int]*State
 }
 
 func (p *Path) clone() *Path {
 	n := &Path{st: p.st.Clone(), stack: make([]*Frame, len(p.stack))}
 	for i, f := range p.stack {
 		n.stack[i] = f.clone()
+	}
+	if len(p.topIter) > 0 {
+		n.topIter = make(map[int]*State, len(p.topIter))
+		for k, v := range p.topIter {
+			n.topIter[k] = v
+		}
 	}
 	return n
 }
@@ -89,7 +103,7 @@ func execFail(f string, a ...interface{}) { panic(execErr(fmt.Sprintf(f, a...)))
 
 func (e *Engine) newFrame(fn *ssa.Function, args []Value, bind []Value) *Frame {
 	e.nextFrame++
-	fr := &Frame{id: e.nextFrame, fn: fn, env: map[ssa.Value]Value{}, visits: map[int]int{}, bind: bind, loopPre: map[int]*State{}, variant: map[int]*Term{}}
+	fr := &Frame{id: e.nextFrame, fn: fn, env: map[ssa.Value]Value{}, visits: map[int]int{}, bind: bind, loopPre: map[int]*State{}, variant: map[int]*Term{}, iterStart: map[int]*State{}}
 	for i, p := range fn.Params {
 		if i < len(args) {
 			fr.env[p] = args[i]
@@ -186,7 +200,7 @@ func (e *Engine) runtimePanic(p *Path, what string, pos token.Pos, ok *Term) []*
 	if ok == True {
 		return nil
 	}
-	if e.curCt != nil && e.curCt.Havoc {
+	if e.curCt != nil && (e.curCt.Havoc || e.curCt.RuntimePanics) {
 		// run-time panics are exceptional paths (weakest assumption mode)
 		var forks []*Path
 		if ok != False {
@@ -462,6 +476,37 @@ func loopsOf(fn *ssa.Function) []*loopInfo {
 	return out
 }
 
+var reachRetCache = map[*ssa.BasicBlock]bool{}
+
+// canReachReturn: some path from b reaches a return instruction (blocks that only lead to panics do not).
+func canReachReturn(b *ssa.BasicBlock) bool {
+	if v, ok := reachRetCache[b]; ok {
+		return v
+	}
+	seen := map[*ssa.BasicBlock]bool{}
+	var dfs func(x *ssa.BasicBlock) bool
+	dfs = func(x *ssa.BasicBlock) bool {
+		if seen[x] {
+			return false
+		}
+		seen[x] = true
+		if len(x.Instrs) > 0 {
+			if _, ok := x.Instrs[len(x.Instrs)-1].(*ssa.Return); ok {
+				return true
+			}
+		}
+		for _, s := range x.Succs {
+			if dfs(s) {
+				return true
+			}
+		}
+		return false
+	}
+	r := dfs(b)
+	reachRetCache[b] = r
+	return r
+}
+
 func loopAt(fn *ssa.Function, b *ssa.BasicBlock) *loopInfo {
 	for _, l := range loopsOf(fn) {
 		if l.header == b {
@@ -607,6 +652,14 @@ func (e *Engine) tryMerge(p *Path, fr *Frame, c *Term, tb, fb *ssa.BasicBlock) b
 
 func (e *Engine) enterBlockVals(p *Path, fr *Frame, b, from *ssa.BasicBlock, vals []Value) {
 	phis := phisOf(b)
+	if fr.top && len(p.topIter) > 0 {
+		// leaving a loop for good: a block outside its body from which the function can still return
+		for _, l := range loopsOf(fr.fn) {
+			if _, in := p.topIter[l.ordinal]; in && !l.body[b] && canReachReturn(b) {
+				delete(p.topIter, l.ordinal)
+			}
+		}
+	}
 	li := loopAt(fr.fn, b)
 	var spec *LoopSpec
 	if li != nil && fr.ct != nil {
@@ -646,6 +699,7 @@ func (e *Engine) enterBlockVals(p *Path, fr *Frame, b, from *ssa.BasicBlock, val
 				if spec.Decreases != nil {
 					e.checkDecreases(p, fr, li, spec)
 				}
+				e.checkSteps(p, fr, li, spec)
 				p.done = true
 				return
 			}
@@ -679,6 +733,16 @@ func (e *Engine) enterBlockVals(p *Path, fr *Frame, b, from *ssa.BasicBlock, val
 				}
 				p.st.Assume(t)
 			}
+			if len(spec.Steps) > 0 || len(spec.XSteps) > 0 {
+				snap := p.st.Clone()
+				fr.iterStart[li.ordinal] = snap
+				if fr.top {
+					if p.topIter == nil {
+						p.topIter = map[int]*State{}
+					}
+					p.topIter[li.ordinal] = snap
+				}
+			}
 			return
 		}
 	}
@@ -707,6 +771,28 @@ func (e *Engine) checkInvariants(p *Path, fr *Frame, li *loopInfo, spec *LoopSpe
 			continue
 		}
 		e.oblige(p, kind, fmt.Sprintf("loop%d.%d", li.ordinal, i), li.header.Instrs[0].Pos(), t, inv.Text)
+	}
+}
+
+// checkSteps checks the per-iteration two-state contracts of a loop at its back edge: old() in a
+// step clause is the state at the start of the iteration (after the invariants were assumed).
+func (e *Engine) checkSteps(p *Path, fr *Frame, li *loopInfo, spec *LoopSpec) {
+	if len(spec.Steps) == 0 {
+		return
+	}
+	st0 := fr.iterStart[li.ordinal]
+	if st0 == nil {
+		e.failObl("resolve", fmt.Sprintf("loop%d-step", li.ordinal), "no iteration-start snapshot")
+		return
+	}
+	ctx := e.loopCtx(p, fr, li, st0)
+	for i, sc := range spec.Steps {
+		t, err := ctx.EvalBool(sc.E)
+		if err != nil {
+			e.failObl("resolve", fmt.Sprintf("loop%d-step%d", li.ordinal, i), err.Error()+" at "+sc.Where())
+			continue
+		}
+		e.oblige(p, "step", fmt.Sprintf("loop%d.%d", li.ordinal, i), li.header.Instrs[0].Pos(), t, sc.Text)
 	}
 }
 
@@ -1001,7 +1087,7 @@ func (e *Engine) execInstr(p *Path, fr *Frame, in ssa.Instruction, onExit exitFn
 		e.enterBlock(p, fr, fr.block.Succs[0])
 		return nil
 	case *ssa.If:
-		c := e.term(fr, in.Cond)
+		c := p.st.Simp(e.term(fr, in.Cond)) // prune branches the path condition already decides
 		tb, fb := fr.block.Succs[0], fr.block.Succs[1]
 		if c == True {
 			e.enterBlock(p, fr, tb)
